@@ -7,10 +7,12 @@ use crate::tape::Tape;
 fn gen_mnemonic(t: &mut Tape) -> String {
     // declared spelling: first character an upper-case letter (so that the short form is a legal
     // mnemonic), then upper/lower letters, digits, underscores
-    let len = match t.weighted(&[2, 5, 3]) {
+    let len = match t.weighted(&[4, 10, 6, 1]) {
         0 => t.range(1, 2),
         1 => t.range(3, 6),
-        _ => t.range(5, 9),
+        2 => t.range(5, 9),
+        // longer than the 12 characters IEEE 488.2 allows for a mnemonic: the macro accepts them
+        _ => t.range(12, 20),
     };
     let style = t.weighted(&[4, 2, 2, 1]);
     let mut s = String::new();
